@@ -1739,6 +1739,18 @@ def _np_sum(i, a, k):
     return reduce_arr(i, 'sum', a[0])
 
 
+def _np_mean(i, a, k):
+    """numpy.mean of a 1-D array: sum / length (the sum by the axioms of finite sums)"""
+    v = a[0]
+    if isinstance(v, Vec):
+        t = 0
+        for x in v.e:
+            t = ops.arith('+', t, x)
+        return ops.arith('/', t, len(v.e))
+    arr = as_arr(v)
+    return ops.arith('/', reduce_arr(i, 'sum', v), arr.n)
+
+
 def _np_array_equal(i, a, k):
     x, y = a[0], a[1]
     if x is None or y is None:
@@ -2034,7 +2046,7 @@ def ext_call(name):
             'numpy.ceil': _np_ceil, 'numpy.all': np_all, 'numpy.any': np_any, 'numpy.where': _np_where,
             'numpy.maximum': _np_maximum, 'numpy.minimum': _np_minimum, 'numpy.max': _np_max, 'numpy.min': _np_min,
             'numpy.amax': _np_max, 'numpy.amin': _np_min, 'numpy.nanmax': _np_max, 'numpy.nanmin': _np_min,
-            'numpy.sum': _np_sum, 'numpy.abs': _b_abs, 'numpy.absolute': _b_abs, 'numpy.array_equal': _np_array_equal, 'numpy.array_equiv': _np_array_equiv, 'numpy.gcd.reduce': _np_gcd_reduce, 'numpy.lcm.reduce': _np_lcm_reduce,
+            'numpy.sum': _np_sum, 'numpy.mean': _np_mean, 'numpy.abs': _b_abs, 'numpy.absolute': _b_abs, 'numpy.array_equal': _np_array_equal, 'numpy.array_equiv': _np_array_equiv, 'numpy.gcd.reduce': _np_gcd_reduce, 'numpy.lcm.reduce': _np_lcm_reduce,
             'numpy.isnan': _np_isnan, 'numpy.round': _np_round, 'numpy.copy': lambda i, a, k: np_copy(a[0]),
             'numpy.sqrt': lambda i, a, k: elementwise1(i, lambda x: np_sqrt_scalar(i, x), a[0]),
             'math.isnan': _math_isnan, 'math.floor': _math_floor, 'math.ceil': _math_ceil, 'math.sqrt': _math_sqrt,
